@@ -139,12 +139,12 @@ class Natives(object):
             if ty == 'MutexGuard':
                 mu = v.f['m']
                 vis = m.load(mu.proj(('f', 'vis')), gg)
-                if vis is TRUE:
+                if vis is TRUE and not (m.st is not None and m.st.unw):
                     out.append((x, s.fn_unlock_visible, [mu], 'unlock')); return
                 if m.debug: m.stats.setdefault('lockers', {}).pop(repr(mu), None)
                 m.store(mu.proj(('f', 'locked')), FALSE, gg)
-                if m.unwind_mode and getattr(th, 'unwinding', FALSE) is not FALSE:
-                    m.store(mu.proj(('f', 'poison')), TRUE, And(gg, th.unwinding))
+                if m.unwind_mode and m.st is not None and m.st.unw and v.f.get('pan', FALSE) is not TRUE:
+                    m.store(mu.proj(('f', 'poison')), TRUE, gg)
                 return
             if ty == 'Sender':
                 if m.debug: m.stats.setdefault('sender_drops', []).append((gg, m.fn_of(m.st.cp).name[-40:], m.st.blk, th.name))
@@ -370,7 +370,7 @@ class Natives(object):
             mu = m.typed_ref(a[0], g, ('Mutex',))
             if m.debug: m.stats.setdefault('lockers', {})[repr(mu)] = (th.name, m.cur_site_name, show(g, 1)[:40])
             m.store(mu.proj(('f', 'locked')), TRUE, g)
-            guard = St('MutexGuard', {'m': mu})
+            guard = St('MutexGuard', {'m': mu, 'pan': BoolC(bool(m.st is not None and m.st.unw))})
             po = m.load(mu.proj(('f', 'poison')), g)
             if po is FALSE or not isinstance(po, E): return Ok(guard)
             return En(RES, Ite(po, ONE, ZERO), {0: St(None, {0: guard}), 1: St(None, {0: St('PoisonError', {0: guard})})})
@@ -386,7 +386,9 @@ class Natives(object):
         R('__mutex_unlock', mutex_unlock, visible=True)
         def guard_deref(m, th, a, g):
             gd = m.load_typed(a[0], g, ('MutexGuard',))
-            if not isinstance(gd, St) or 'm' not in gd.f: return Ref([])
+            if not isinstance(gd, St) or 'm' not in gd.f:
+                if m.debug: print('GUARD_DEREF of', repr(gd)[:200], 'at', m.cur_site_name)
+                return Ref([])
             return gd.f['m'].proj(('f', 'data'))
         T('Deref', 'deref', 'MutexGuard', guard_deref); T('DerefMut', 'deref_mut', 'MutexGuard', guard_deref)
         def cv_new(m, th, a, g):
@@ -447,7 +449,7 @@ class Natives(object):
                 t.token = Or(t.token, And(g, Eq(tid, BV(t.tid))))
             return UNIT
         R('Thread::unpark', unpark, visible=True)
-        R('thread::panicking panicking', lambda m, th, a, g: getattr(th, 'unwinding', FALSE))
+        R('thread::panicking panicking', lambda m, th, a, g: BoolC(bool(m.st is not None and m.st.unw)))
         R('Builder::new', lambda m, th, a, g: St('Builder', {}))
         R('Builder::name', lambda m, th, a, g: a[0])
         def spawn(m, th, a, g):
@@ -599,6 +601,7 @@ class Natives(object):
             if not isinstance(it, St): return POISON
             vec = it.f['v']; i = it.f['i']
             n = m.load(vec.proj(('f', 'len')), g)
+            if not isinstance(n, E): raise EncodeError('iter over non-vector %r in %s' % (vec, m.cur_site_name))
             has = Ult(i, n)
             elem = Ref(norm_refs([(And(x, Eq(i, BV(k))), c, p + (('f', k),)) for k in range(m.CAP) for x, c, p in vec.tg]))
             m.store(a[0].proj(('f', 'i')), Ite(has, Add(i, ONE), i), g)
